@@ -1220,3 +1220,137 @@ Proof.
   { intros e He. apply in_app_iff in He as [He|He]; [apply Hf, He | apply (i_dir _ _ _ _ _ _ _ I), He]. }
   intros a b Ha Hb. apply (nodup_map_inj_on ek (applied ls) Hk); apply Hsub; assumption.
 Qed.
+
+(** * Witnesses and non-vacuity *)
+
+Ltac vm_conj :=
+  repeat (match goal with |- _ /\ _ => split; [vm_compute; reflexivity|] end); vm_compute; reflexivity.
+
+Definition batch_pre_b (k : N) (s : shard) (b : batch) : bool :=
+  batch_ok (index s) k b && forallb (fun i => memb i (live s)) (b_inputs b)
+  && forallb (fun d => negb (sid d =? b_out b)) (dirs s).
+
+Lemma batch_pre_b_sound k s b : batch_pre_b k s b = true -> BatchPre k s b.
+Proof.
+  unfold batch_pre_b. intros H. apply andb_true_iff in H as [H H3]. apply andb_true_iff in H as [H1 H2].
+  rewrite forallb_forall in H2, H3. split; [exact H1 | |].
+  - intros i Hi. apply memb_true, H2, Hi.
+  - intros d Hd. apply N.eqb_neq, negb_true_iff, H3, Hd.
+Qed.
+
+Lemma incl_b_sound (l l' : list N) : forallb (fun i => memb i l') l = true -> forall i, In i l -> In i l'.
+Proof. intros H i Hi. rewrite forallb_forall in H. apply memb_true, H, Hi. Qed.
+
+Lemma fresh_b_sound (ds : list segdir) (o : N) :
+  forallb (fun d => negb (sid d =? o)) ds = true -> forall d, In d ds -> sid d <> o.
+Proof. intros H d Hd. rewrite forallb_forall in H. apply N.eqb_neq, negb_true_iff, H, Hd. Qed.
+
+Fixpoint batches_pre_b (k : N) (s : shard) (bs : list batch) : bool :=
+  match bs with
+  | [] => true
+  | b :: r => batch_pre_b k s b && batches_pre_b k (run_batch s b) r
+  end.
+
+Lemma batches_pre_b_sound k bs : forall s, batches_pre_b k s bs = true -> batches_pre k s bs.
+Proof.
+  induction bs as [|b r IH]; intros s H; cbn [batches_pre_b batches_pre] in *; [exact I|].
+  apply andb_true_iff in H as [H1 H2]. split; [apply batch_pre_b_sound, H1 | apply IH, H2].
+Qed.
+
+(** Known finding CountAfterPartialDrainOrInMemory.  Capacity 2: segment 0 holds
+    types {0,1}, segment 1 holds type 0 only.  With k = 2 the policy plans the batch
+    [0;1] -> 10000 for type 0.  Segment 1 is drained; segment 0 stays live for type 1
+    and keeps the files of type 0: COUNT for type 0 goes from 3 to 4, the selection
+    stays exact. *)
+Definition ls_pd : list label :=
+  [LStore (mkEv 0 0 0); LStore (mkEv 1 0 1)] ++ flush_all [0; 1] ++
+  [LStore (mkEv 2 0 0); LStore (mkEv 3 1 0)] ++ flush_all [0].
+Definition b_pd : batch := mkBatch 10000 [0; 1] [0].
+
+Lemma count_partial_drain_refuted :
+  exists c ls k b u,
+    let s := run (init c) ls in
+    no_crash ls /\ NoDup (map ek (applied ls)) /\ BatchPre k s b /\ NoDup (b_uids b) /\ In u (b_uids b) /\
+    index s = [(0, [0; 1]); (1, [0])] /\
+    drained (index s) b = [1] /\ undrained s b = [0] /\
+    live (run_batch s b) = [0; 10000] /\ index (run_batch s b) = [(0, [1]); (10000, [0])] /\
+    count s u = 3 /\ count (run_batch s b) u = 4 /\
+    select (run_batch s b) u = select s u /\ len (select s u) = 3.
+Proof.
+  exists 2, ls_pd, 2, b_pd, 0. cbv zeta.
+  split; [vm_compute; reflexivity|]. split; [apply nodupb_sound; vm_compute; reflexivity|].
+  split; [apply batch_pre_b_sound; vm_compute; reflexivity|].
+  split; [apply nodupb_sound; vm_compute; reflexivity|]. split; [left; reflexivity|].
+  vm_conj.
+Qed.
+
+(** the same batch, stopped after the output was written, then crash and restart:
+    every selection is as without the run, COUNT also counts the leftover copy *)
+Lemma failed_run_count_refuted :
+  exists c ls b u,
+    let s := run (init c) ls in
+    let s1 := crun s [CWrite b; CBase LCrash; CBase LRestart] in
+    let s0 := crun s [CBase LCrash; CBase LRestart] in
+    no_crash ls /\ NoDup (map ek (applied ls)) /\ (forall d, In d (dirs s) -> sid d <> b_out b) /\
+    live s1 = [0; 1; 10000] /\ index s1 = index s /\
+    select s1 u = select s0 u /\ count s0 u = 3 /\ count s1 u = 6.
+Proof.
+  exists 2, ls_pd, b_pd, 0. cbv zeta.
+  split; [vm_compute; reflexivity|]. split; [apply nodupb_sound; vm_compute; reflexivity|].
+  split; [apply fresh_b_sound; vm_compute; reflexivity|].
+  vm_conj.
+Qed.
+
+(** Non-vacuity: two event types in different subsets of three segments
+    (segment 0 {0,1}, segment 1 {0}, segment 2 {1}) and one event in the memtable;
+    two batches of the k = 2 policy, the first drains segment 0 partially, the
+    second drains it completely. *)
+Definition ls_3 : list label :=
+  ls_pd ++ [LStore (mkEv 4 1 1); LStore (mkEv 5 0 1)] ++ flush_all [1] ++ [LStore (mkEv 6 2 0)].
+Definition b_31 : batch := mkBatch 10000 [0; 1] [0].
+Definition b_32 : batch := mkBatch 10001 [0; 2] [1].
+
+Example select_preserved_example :
+  let s := run (init 2) ls_3 in
+  let t := run_batches s [b_31; b_32] in
+  no_crash ls_3 /\ NoDup (map ek (applied ls_3)) /\ batches_pre 2 s [b_31; b_32] /\
+  index s = [(0, [0; 1]); (1, [0]); (2, [1])] /\ live s = [0; 1; 2] /\
+  index t = [(10000, [0]); (10001, [1])] /\ live t = [10000; 10001] /\ map sid (dirs t) = [10000; 10001] /\
+  select s 0 = [mkEv 6 2 0; mkEv 0 0 0; mkEv 2 0 0; mkEv 3 1 0] /\ select t 0 = select s 0 /\
+  select s 1 = [mkEv 1 0 1; mkEv 5 0 1; mkEv 4 1 1] /\ select t 1 = select s 1 /\
+  count s 0 = 4 /\ count (run_batch s b_31) 0 = 5 /\ count t 0 = 4.
+Proof.
+  cbv zeta. split; [vm_compute; reflexivity|]. split; [apply nodupb_sound; vm_compute; reflexivity|].
+  split; [apply batches_pre_b_sound; vm_compute; reflexivity|].
+  vm_conj.
+Qed.
+
+(** a single event type, two segments: the batch drains both inputs *)
+Definition ls_fd : list label :=
+  [LStore (mkEv 0 1 0); LStore (mkEv 1 0 0)] ++ flush_all [0] ++
+  [LStore (mkEv 2 0 0); LStore (mkEv 3 1 0)] ++ flush_all [0] ++ [LStore (mkEv 4 0 0)].
+
+Example count_preserved_full_drain_example :
+  let s := run (init 2) ls_fd in
+  let b := mkBatch 10000 [0; 1] [0] in
+  no_crash ls_fd /\ NoDup (map ek (applied ls_fd)) /\ BatchPre 2 s b /\ NoDup (b_uids b) /\
+  (forall i, In i (b_inputs b) -> In i (drained (index s) b)) /\
+  live (run_batch s b) = [10000] /\ count s 0 = 5 /\ count (run_batch s b) 0 = 5.
+Proof.
+  cbv zeta. split; [vm_compute; reflexivity|]. split; [apply nodupb_sound; vm_compute; reflexivity|].
+  split; [apply batch_pre_b_sound; vm_compute; reflexivity|].
+  split; [apply nodupb_sound; vm_compute; reflexivity|].
+  split; [apply incl_b_sound; vm_compute; reflexivity|].
+  vm_conj.
+Qed.
+
+Example failed_run_example :
+  let s := run (init 2) ls_3 in
+  no_crash ls_3 /\ NoDup (map ek (applied ls_3)) /\
+  (forall d, In d (dirs s) -> sid d <> b_out b_31) /\
+  live (crun s [CWrite b_31; CBase LCrash; CBase LRestart]) = [0; 1; 2; 10000].
+Proof.
+  cbv zeta. split; [vm_compute; reflexivity|]. split; [apply nodupb_sound; vm_compute; reflexivity|].
+  split; [apply fresh_b_sound; vm_compute; reflexivity|].
+  vm_conj.
+Qed.
